@@ -23,6 +23,13 @@ Mirrors, function by function:
 * bank `msgServer.Send`, `SendCoins`, `MintCoins`, `BurnCoins` (forked SDK x/bank/keeper)
 * marker `SendRestrictionFn` (withdraw / deposit parts) x/marker/keeper/send_restrictions.go:18-92
 * marker `msgServer.Withdraw` / `Keeper.WithdrawCoins`  x/marker/keeper/marker.go:169-209
+* marker lifecycle status (proposed / finalized / active / cancelled / destroyed,
+  x/marker/types/marker.pb.go `MarkerStatus`): a marker account in ANY status can hold scope
+  tokens (CancelMarker, marker.go:518, only asks for the marker's OWN supply to be in escrow;
+  a bank send to a proposed / finalized / cancelled / destroyed marker's address only meets the
+  deposit rule).  The send restriction asks for withdraw access whatever the status; the status
+  only blocks the marker's own denom (send_restrictions.go:60-67) and the marker module's
+  own Withdraw message (marker.go:190).
 * authz `GenericAuthorization` / `CountAuthorization.Accept` (forked SDK x/authz)
 
 Conventions: addresses and scope ids are symbolic strings.  The scope token of scope `i`
@@ -87,6 +94,7 @@ inductive Err where
   | dup        -- duplicate metadata address
   | novo       -- "no account address associated with metadata address"
   | same       -- "already has the proposed value owner"
+  | status     -- marker Withdraw: "… from a marker that is not in Active status"
   deriving DecidableEq, Repr
 
 def Err.toString : Err → String
@@ -94,6 +102,7 @@ def Err.toString : Err → String
   | .sig => "err:sig" | .roles => "err:roles" | .contract => "err:contract" | .blocked => "err:blocked"
   | .withdraw => "err:withdraw" | .deposit => "err:deposit" | .funds => "err:funds"
   | .notfound => "err:notfound" | .dup => "err:dup" | .novo => "err:novo" | .same => "err:same"
+  | .status => "err:status"
 
 /-- an authz grant; `count = 0` is a `GenericAuthorization`, `count = n+1` a
 `CountAuthorization` with `n+1` uses left -/
@@ -104,10 +113,23 @@ structure Grant where
   count : Nat
   deriving DecidableEq, Repr
 
+/-- `MarkerStatus` (x/marker/types/marker.pb.go) -/
+inductive MStatus where
+  | proposed | finalized | active | cancelled | destroyed
+  deriving DecidableEq, Repr
+
+def MStatus.toString : MStatus → String
+  | .proposed => "proposed" | .finalized => "finalized" | .active => "active"
+  | .cancelled => "cancelled" | .destroyed => "destroyed"
+def MStatus.all : List MStatus := [.proposed, .finalized, .active, .cancelled, .destroyed]
+def MStatus.ofString? (s : String) : Option MStatus := MStatus.all.find? (·.toString = s)
+
 structure Marker where
   addr : Addr
   restricted : Bool
   access : List (Addr × Access)
+  /-- the lifecycle status; the account exists (and `GetMarker` finds it) in every one of them -/
+  status : MStatus := .active
   deriving DecidableEq, Repr
 
 /-- a `Party` of role OWNER (types/scope.pb.go): address and the `optional` flag -/
@@ -135,7 +157,7 @@ structure State where
   scopes : List Scope := []
   ledger : Ledger := []
   grants : List Grant := []
-  markers : List Marker := [⟨"MR", true, []⟩, ⟨"MU", false, []⟩]
+  markers : List Marker := [⟨"MR", true, [], .active⟩, ⟨"MU", false, [], .active⟩]
   /-- accounts `isWasmAccount` (signers.go:357) treats as smart contracts -/
   wasm : List Addr := ["K"]
   /-- bank `BlockedAddr`: the module accounts -/
@@ -183,8 +205,9 @@ def Marker.has (m : Marker) (a : Addr) (p : Access) : Bool := m.access.contains 
 def anyHas (m : Marker) (as : List Addr) (p : Access) : Bool := as.any (m.has · p)
 
 /-- send_restrictions.go:41-58: coins leave a marker account only when one of the transfer
-agents has withdraw on it (scope denoms are never the marker's own denom, so the status
-check does not apply) -/
+agents has withdraw on it — WHATEVER the marker's lifecycle status: the status check
+(send_restrictions.go:60-67) comes after the access check and only concerns the marker's own
+denom, which a scope denom never is -/
 def withdrawOk (s : State) (agents : List Addr) (frm : Addr) : Bool :=
   match findMarker s frm with
   | some fm => !agents.isEmpty && anyHas fm agents .withdraw
@@ -607,6 +630,7 @@ def bankSend (s : State) (frm to : Addr) (ids : List ScopeId) : Except Err State
 /-- marker `msgServer.Withdraw` → `Keeper.WithdrawCoins` (x/marker/keeper/marker.go:169) for scope
 tokens sitting in a marker account: the caller needs withdraw on that marker and, when the
 recipient is a restricted marker, deposit on that one (`validateSendToMarker`, marker.go:878);
+the marker must be active (marker.go:190, for any coin, not only its own);
 the send itself runs with the marker bypass.  (An empty coin list is not generated.) -/
 def markerWithdraw (s : State) (marker admin to : Addr) (ids : List ScopeId) : Except Err State :=
   if admin = "" || to = "" || ids.isEmpty || !nodupB ids then .error .invalid
@@ -615,6 +639,7 @@ def markerWithdraw (s : State) (marker admin to : Addr) (ids : List ScopeId) : E
     | some m =>
       if !m.has admin .withdraw then .error .withdraw
       else if !depositOk s [admin] marker to then .error .deposit
+      else if m.status ≠ .active then .error .status            -- marker.go:190
       else if s.blocked.contains to then .error .blocked
       else if !hasFunds s.ledger marker ids then .error .funds
       else .ok { s with ledger := s.ledger.move marker to (ones ids) }
@@ -637,6 +662,13 @@ def setAccess (s : State) (marker addr : Addr) (perms : List Access) : Except Er
   else .ok { s with markers := s.markers.map fun m =>
     if m.addr = marker then { m with access := m.access.filter (·.1 ≠ addr) ++ perms.map fun p => (addr, p) } else m }
 
+/-- the marker's lifecycle status changes (FinalizeMarker / ActivateMarker / CancelMarker /
+DeleteMarker, marker.go:406-620; markers are created proposed): access list, type and the
+coins of other denoms the account holds stay -/
+def setStatus (s : State) (marker : Addr) (st : MStatus) : Except Err State :=
+  if !isMarker s marker then .error .notfound
+  else .ok { s with markers := s.markers.map fun m => if m.addr = marker then { m with status := st } else m }
+
 inductive Op where
   | write (id : ScopeId) (owners : List Party) (rollup : Bool) (vo : Addr) (signers : List Addr)
   | delete (id : ScopeId) (signers : List Addr)
@@ -647,6 +679,7 @@ inductive Op where
   | grant (granter grantee : Addr) (mt : MsgType) (count : Nat)
   | revoke (granter grantee : Addr) (mt : MsgType)
   | access (marker addr : Addr) (perms : List Access)
+  | mstatus (marker : Addr) (st : MStatus)
   deriving Repr
 
 def exec (s : State) : Op → Except Err State
@@ -659,6 +692,7 @@ def exec (s : State) : Op → Except Err State
   | .grant granter grantee mt count => .ok (saveGrant s ⟨granter, grantee, mt, count⟩)
   | .revoke granter grantee mt => deleteGrant s granter grantee mt
   | .access marker addr perms => setAccess s marker addr perms
+  | .mstatus marker st => setStatus s marker st
 
 /-- one transaction: a rejected message leaves the state unchanged -/
 def applyOp (s : State) (op : Op) : State × String :=
